@@ -144,8 +144,9 @@ def extra_coverage(ctx, stats):
         "stated_not_proved": STATED_NOT_PROVED,
         "partial_runtime_aspects": [
             "goroutine cleanup: in the LTS every worker has returned and the pipe goroutine has returned or is enabled to (bf_return_no_goroutine_left); that the Go "
-            "runtime really runs that last step is observed: runtime.NumGoroutine must settle back within 10 s after every BreadthFirst run and after every closed/cancelled "
-            "pipe, otherwise the monitors reject with class goroutine-leak",
+            "runtime really runs that last step is observed with the CALLER'S CONTEXT KEPT ALIVE after return (success or error): a stack dump filtered on dawgs traversal / "
+            "util/channels frames must be back to its pre-run count within 10 s (polled) after every BreadthFirst run and after every closed/cancelled pipe, otherwise the "
+            "monitors reject with class goroutine-leak and name the parked frame; the context the pipe listens on is also an extracted order fact (order_defers_and_capacity)",
             "wall-clock promptness: only a hang detector (>= 20 s, or 4 s of complete driver inactivity with nothing in flight)",
             "unsynchronised PathSegment.size roll-up: outside the LTS and outside the statement; counted by the -race pass of the thorough tier as an observation",
         ],
